@@ -11,13 +11,8 @@ import (
 // The property C07 on the implementation's own observations: what the clients were told before the end of a
 // session (partitions, acknowledged events, pipe definitions) against what the next start shows.
 
-// recorded findings (known_findings.d/C07.txt); every other class is a violation
-var knownClasses = map[string]bool{
-	"refuses-start:tindex-orphan":               true,
-	"range-hides-events:cindex-stale":           true,
-	"range-hides-events:after-kill":             true,
-	"range-hides-events:index-ahead-of-journal": true,
-}
+// recorded findings (known_findings.d/C07.txt): none at present; every class is a violation
+var knownClasses = map[string]bool{}
 
 // crashed: the session ended without the shutdown sequence having run (to its end)
 func crashed(ss Session) bool { return ss.End != "stop" }
@@ -75,6 +70,13 @@ func oracle(sc *Scenario, tr *trace) (*Violation, bool, bool, []int) {
 	if len(tr.obs) == 0 || !tr.obs[0].Started {
 		add("fresh-directory-refused", "the server did not start on an empty directory")
 		return &vs[0], false, false, nil
+	}
+	// the removal of a partition: the directory has to go before the index record (a crash in between must not leave data
+	// without a record: the server would refuse to start)
+	for i, o := range tr.drops {
+		if o == "record-first" {
+			add("drop-removes-record-before-directory", "partition removal %d of the scenario: the tag index without the partition's record was in place before the partition's directory was removed", i)
+		}
 	}
 	// partitions whose time index got ahead of the journal: acknowledged records were lost at the end of a session
 	tainted := make([]bool, np)
@@ -183,6 +185,16 @@ func oracle(sc *Scenario, tr *trace) (*Violation, bool, bool, []int) {
 				staleCause[p] = "after-kill"
 			}
 		}
+		// a partition whose directory the surgery removed was being truncated away when the server crashed: the removal was
+		// not acknowledged, the partition may still be there, but what it held is gone (with what its time index said)
+		wiped := make([]bool, np)
+		for _, g := range ss.Surgery {
+			if g.Kind == "drop-window" && g.Part < np && registered[g.Part] {
+				acked[g.Part], flushed[g.Part] = nil, nil
+				tainted[g.Part], staleCause[g.Part] = false, ""
+				wiped[g.Part] = true
+			}
+		}
 		S := ss.Surgery
 		o := tr.obs[si+1]
 		if o.Blind {
@@ -194,7 +206,7 @@ func oracle(sc *Scenario, tr *trace) (*Violation, bool, bool, []int) {
 		if !o.Started {
 			reason := "unexplained-after-" + ss.End
 			switch {
-			case strings.Contains(o.Err, "tindex") && strings.Contains(o.Err, "inconsistent") && has(S, "tindex-orphan"):
+			case strings.Contains(o.Err, "tindex") && strings.Contains(o.Err, "inconsistent") && has(S, "drop-window"):
 				reason = "tindex-orphan"
 			case strings.Contains(o.Err, "tindex") && strings.Contains(o.Err, "inconsistent") && has(S, "tindex-torn"):
 				reason = "tindex-renamed" // the saver had moved tindex.dat away when it died
@@ -206,10 +218,9 @@ func oracle(sc *Scenario, tr *trace) (*Violation, bool, bool, []int) {
 			add("refuses-start:"+reason, "%s: the server refuses to start: %s", where, o.Err)
 			break
 		}
-		// a partition whose record the surgery took out of the tag index was being dropped: its disappearance is the drop completing
-		for _, g := range S {
-			if g.Kind == "tindex-orphan" && g.Part < np && !o.Parts[g.Part].Exists {
-				registered[g.Part], acked[g.Part], flushed[g.Part] = false, nil, nil
+		for p := range wiped {
+			if wiped[p] && !o.Parts[p].Exists {
+				registered[p] = false // the removal went through
 			}
 		}
 		var want []string
@@ -255,7 +266,7 @@ func oracle(sc *Scenario, tr *trace) (*Violation, bool, bool, []int) {
 				}
 			}
 			var before []int64
-			if p < len(pre.Ranges) {
+			if p < len(pre.Ranges) && !wiped[p] {
 				before = pre.Ranges[p]
 			}
 			// (timestamps increase per partition and the bounds fall between timestamps, so the answer is exactly the
